@@ -15,6 +15,11 @@ def run(ctx):
     dsl.verify(ctx, repo, S.base_registry(), "C08.kernel.create_particle", S.CREATE, S.h_create_particle, expect_covers=S.CREATE_COVERS)
     dsl.verify(ctx, repo, S.base_registry(), "C08.smc.get_log_w", S.GETLOGW, S.h_get_log_w, expect_covers=["last", "not-last"])
     common.adapted_contracts(ctx, repo, "C08")
+    # the adapted proposals build their candidate trees through get_cached_new_tree: a hit must be a tree built under the CURRENT concentration value
+    # (key adequacy is stated once, in the C14 contracts)
+    from contracts import c14_memo as M14
+
+    dsl.verify(ctx, repo, M14.new_tree_registry(), "C08.cache", M14.SA + ".get_cached_new_tree", M14.h_new_tree, expect_covers=["alpha-changed", "alpha-same"])
     ctx.extra["explanation"] = ("Deductive: real sample()/log_p() of the three proposals, Kernel.create_particle with the real Particle/TreeHolder code, "
                                 "_get_log_w, log_normalize are symbolically executed from /repo's current source and every obligation is discharged by z3 for all "
                                 "parent states (any R, K, o). Bounded stand-in (not proof): exact enumeration of the proposals on small parents.")
